@@ -67,6 +67,27 @@ def install_struct(hooks, builder_notes):
         return prev(it, qual, args, kw) if prev else NotImplemented
     hooks['external'] = external
 
+    def int_to_bytes(it, value, args, kw):
+        """int.to_bytes(length, byteorder, *, signed=False) of a symbolic integer: the same library contract as struct.pack
+        with the standard-size code of that length and signedness (OverflowError outside its range); recorded as a pack call"""
+        length = args[0] if args else kw.get('length', 1)
+        order = args[1] if len(args) > 1 else kw.get('byteorder', 'big')
+        signed = kw.get('signed', False)
+        length = it.concretize(length, 'int.to_bytes with a symbolic length')
+        if not isinstance(order, str) or not isinstance(signed, bool) or length not in (1, 2, 4, 8):
+            raise I.Unsupported('int.to_bytes(%r, %r, signed=%r)' % (length, order, signed))
+        code = {1: 'b', 2: 'h', 4: 'i', 8: 'q'}[length]
+        fmt = ('<' if order == 'little' else '>') + (code if signed else code.upper())
+        lo, hi = (-(1 << (8 * length - 1)), (1 << (8 * length - 1)) - 1) if signed else (0, (1 << (8 * length)) - 1)
+        ok = it.and_(it.compare(I.ast.GtE(), value, lo), it.compare(I.ast.LtE(), value, hi))
+        if not it.truth(ok):
+            I.py_raise('OverflowError', 'int too big to convert')
+        out = W.SymSized('bytes', length)
+        out.packed = (fmt, value)
+        builder_notes.append(PackCall(fmt, value, len(it.run.pc)))
+        return out
+    hooks['int_to_bytes'] = int_to_bytes
+
 
 class EmitHarness(P.PassHarness):
     """PassHarness with the extra library contracts the emission passes need"""
@@ -334,6 +355,11 @@ def data_obligations(ctx, ph, cls, tag, paths, replay):
                                    list(p.pc[:pk.pc_len]), goal, 'INT', func=fn, kind='post', cover=False,
                                    meta={'replay': ('data_range', {}), 'props': ['C10'],
                                          'what': 'a sequence value outside its documented range is emitted (wrapped) or the bytes are not its little-endian image'}))
+            if p.kind == 'return' and len(packs) != len(origs):
+                # the per-value obligations above are stated on the library encoder calls (struct.pack / int.to_bytes): a
+                # returning path on which some value did not go through one of them is not covered by them - undecided, never held
+                ctx.undecide('%s/%s/every-value-goes-through-a-modelled-encoder#%d' % (fn, tag, i),
+                             '%d value(s) parsed, %d encoder call(s) recorded' % (len(origs), len(packs)))
             # (2) a refusal because of a value means that value is outside the documented range (legal values are accepted)
             if p.kind == 'raise' and p.value.cls.name in ('struct.error', 'AssemblerError') and len(origs) > len(packs):
                 k = len(packs)
